@@ -44,7 +44,9 @@ type Runner struct {
 	Tags     map[string]int
 	Watchdog time.Duration
 	idleAdds map[int]bool
-	racing   bool // oracle-only section: completions/evictions race with Reads in flight
+	racing   bool        // oracle-only section: completions/evictions race with Reads in flight
+	verTotal map[int]int // successful verifications observed, per piece
+	asyncs   []*asyncOp
 	fuseH    map[int]*fuseHandle
 	fuseR    map[int]*fuseRead
 	finPend  []uint32
@@ -55,6 +57,9 @@ type directCh struct {
 	ch       <-chan struct{}
 	piece    int
 	closedAt int // op number at which it was first seen closed, -1 if open
+	verAt    int // verifications of the piece observed when the channel was handed out
+	prio     int
+	gaveUp   bool // its consumer has withdrawn the registration it waited with
 }
 
 type RState struct {
@@ -265,7 +270,7 @@ func (ru *Runner) finishRead(rs *RState, x readRes) string {
 	if k > 0 && rs.pos+int64(k) > rs.length {
 		ru.violate("bytes:beyond-range", fmt.Sprintf("reader(%d,%d) at %d returned %d bytes", rs.offset, rs.length, rs.pos, k))
 	} else if k > 0 {
-		want := ru.S.Content[rs.offset+rs.pos : rs.offset+rs.pos+int64(k)]
+		want := ru.S.Ref(rs.offset+rs.pos, rs.offset+rs.pos+int64(k))
 		if string(want) != string(p.buf[:k]) {
 			ru.violate("bytes:mismatch", fmt.Sprintf("reader(%d,%d) at %d: %d bytes differ from the torrent's content", rs.offset, rs.length, rs.pos, k))
 		}
@@ -315,7 +320,7 @@ func (ru *Runner) finishRead(rs *RState, x readRes) string {
 				ru.violate("err:closed-not-closed", "ErrClosed although the reader is open")
 			}
 		default:
-			if rs.offset >= 0 && rs.offset+rs.length <= int64(len(ru.S.Content)) {
+			if rs.offset >= 0 && rs.offset+rs.length <= ru.S.Total {
 				ru.violate("err:unexpected", "Read failed with "+err.Error())
 			}
 		}
@@ -503,26 +508,44 @@ func atoi(s string) (int64, bool) {
 	return v, err == nil
 }
 
-// ParseLayout: "s:<len>" single file, "m:<len>,<len>,…" multi-file.
+// ParseLayout: "s:<len>" single file, "m:<len>,<len>,…" multi-file; optional suffixes
+// "@lo-hi" (sparse torrent: only pieces lo..hi have real hashes) and "+p" (fake peer).
 func ParseLayout(l string) ([]File, bool, bool) {
-	if len(l) < 3 || l[1] != ':' {
-		return nil, false, false
+	fs, single, _, _, _, ok := ParseLayoutOpt(l)
+	return fs, single, ok
+}
+
+func ParseLayoutOpt(l string) (fs []File, single bool, lo, hi int, fake bool, ok bool) {
+	hi = -1
+	if strings.HasSuffix(l, "+p") {
+		fake = true
+		l = strings.TrimSuffix(l, "+p")
 	}
-	var fs []File
+	if k := strings.IndexByte(l, '@'); k >= 0 {
+		var a, b int
+		if n, err := fmt.Sscanf(l[k+1:], "%d-%d", &a, &b); n != 2 || err != nil || a < 0 || b < a {
+			return nil, false, 0, -1, false, false
+		}
+		lo, hi = a, b
+		l = l[:k]
+	}
+	if len(l) < 3 || l[1] != ':' {
+		return nil, false, 0, -1, false, false
+	}
 	for i, p := range strings.Split(l[2:], ",") {
 		v, ok := atoi(p)
 		if !ok || v < 0 {
-			return nil, false, false
+			return nil, false, 0, -1, false, false
 		}
 		fs = append(fs, File{Name: fmt.Sprintf("d%d/f%d", i%2, i), Length: v})
 	}
 	switch l[0] {
 	case 's':
-		return fs, true, len(fs) == 1
+		return fs, true, lo, hi, fake, len(fs) == 1
 	case 'm':
-		return fs, false, true
+		return fs, false, lo, hi, fake, true
 	}
-	return nil, false, false
+	return nil, false, 0, -1, false, false
 }
 
 // Close kills the torrent of the runner (end of case).
@@ -573,7 +596,7 @@ func (ru *Runner) Exec(op string) bool {
 		total, ok2 := atoi(ws[3])
 		salt, ok3 := atoi(ws[4])
 		rate, ok4 := atoi(ws[5])
-		files, single, ok5 := ParseLayout(ws[6])
+		files, single, lo, hi, fake, ok5 := ParseLayoutOpt(ws[6])
 		if !(ok1 && ok2 && ok3 && ok4 && ok5) || ps <= 0 || ps%16384 != 0 || total <= 0 {
 			return bad()
 		}
@@ -599,7 +622,10 @@ func (ru *Runner) Exec(op string) bool {
 			name = "t"
 		}
 		name = fmt.Sprintf("%s-%d-%d", name, salt, len(ru.Lines))
-		s, err := New(name, uint32(salt), uint32(ps), files, single)
+		if hi >= 0 && int64(hi) >= (total+ps-1)/ps {
+			return bad()
+		}
+		s, err := NewOpt(name, uint32(salt), uint32(ps), files, single, lo, hi, fake)
 		if err != nil {
 			ru.emit(op, "err "+strings.ReplaceAll(err.Error(), " ", "_"))
 			return true
@@ -744,6 +770,10 @@ func (ru *Runner) Exec(op string) bool {
 		if !ok || i < 0 || int(i) >= ru.S.N {
 			return bad()
 		}
+		if int(i) < ru.S.Lo || int(i) > ru.S.Hi {
+			ru.finish(op, "done=0") // no real hash: cannot be verified (generators avoid it)
+			return true
+		}
 		var done bool
 		var err error
 		if ws[1] == "complete" {
@@ -758,6 +788,7 @@ func (ru *Runner) Exec(op string) bool {
 		if done {
 			ru.complete[i] = true
 			ru.everOK[i] = true
+			ru.noteVerified(int(i))
 		}
 		ru.tag(ws[1])
 		o := "done=0"
@@ -832,7 +863,7 @@ func (ru *Runner) Exec(op string) bool {
 			return true
 		}
 		if ch != nil {
-			ru.direct = append(ru.direct, &directCh{ch, int(i), -1})
+			ru.direct = append(ru.direct, &directCh{ch: ch, piece: int(i), closedAt: -1})
 			if int(i) < len(ru.complete) && ru.complete[i] {
 				ru.violate("request:channel-for-complete-piece", fmt.Sprintf("Request(%d) returned a channel although the piece is complete and no notification is pending", i))
 			}
@@ -941,7 +972,7 @@ func (ru *Runner) finishCompletion(op, obs string, piece int, done bool) {
 
 func (ru *Runner) fileFor(foff, flen int64) (string, bool) {
 	if ru.Single {
-		if foff == 0 && flen == int64(len(ru.S.Content)) {
+		if foff == 0 && flen == ru.S.Total {
 			return ru.S.T.Name, true
 		}
 		return "", false
@@ -1005,7 +1036,7 @@ func (ru *Runner) doHTTP(foff, flen, a, b int64) string {
 	if b > flen-1 {
 		b = flen - 1 // RFC 7233: the last-byte-pos is clamped to the representation
 	}
-	want := ru.S.Content[foff+a : foff+b+1]
+	want := ru.S.Ref(foff+a, foff+b+1)
 	if r.status != 206 {
 		ru.violate("http:status", fmt.Sprintf("bytes=%d-%d of %d: status %d", a, b, flen, r.status))
 	}
@@ -1036,6 +1067,7 @@ func (ru *Runner) Readers() []RInfo {
 	return out
 }
 
+func (ru *Runner) LastSnapEmpty() bool   { return len(ru.lastSnap) == 0 }
 func (ru *Runner) Dead() bool            { return ru.dead }
 func (ru *Runner) IsComplete(i int) bool { return i < len(ru.complete) && ru.complete[i] }
 func (ru *Runner) Holds() map[[2]int]int { return ru.holds }
